@@ -28,6 +28,7 @@ func (fc *FnCtx) callWith(instr ssa.Instruction, c *ssa.CallCommon, args []Val, 
 		}
 		fc.escapedRoots = nil
 	}()
+	fc.callGuards(c, args, st)
 	if c.IsInvoke() {
 		recv := fc.term(fc.val(c.Value, st))
 		key := "(" + typeName(c.Value.Type()) + ")." + c.Method.Name()
@@ -235,6 +236,9 @@ func (fc *FnCtx) callByContract(instr ssa.Instruction, name string, con *Contrac
 	}
 	// frame
 	if con.HasAssigns {
+		if !con.Trusted && fn != nil {
+			fc.note("frame of " + name + " taken from its assigns clause (assumed, not checked against its body)")
+		}
 		for _, a := range con.Assigns {
 			for _, k := range fc.eng.resolveAssign(con, a, fc) {
 				if k == "*" {
